@@ -119,7 +119,7 @@ class Runner:
         return ok
 
 
-POOL = [0, 1, 1.0, 2, -3, "a", "b"]
+POOL = [0, 1, 1.0, 2, -3, "a", "b", None]
 NUMPOOL = [0, 1, 1.0, 2, -3, 2.5]
 
 
@@ -192,11 +192,13 @@ def c19(tier, seed):
             R.expect("bounded:chunks", f"chunks({la}, {cs})",
                      lambda r: same(r, [a[i:i + cs] for i in range(0, len(a), cs)]), "consecutive chunks of the stated size (the last one may be shorter, none is empty)")
         R.expect("bounded:zip", f"zip({la}, List->reverse({la}))", lambda r: same(r, [[x, y] for x, y in zip(a, a[::-1])]), "pairs")
-    for a in lists_upto([[1, 2], 3, [], "a", [4, [5]]], 3, cap, rnd):
+    # elements of every kind: only child *lists* are replaced by their contents; NULL, sets, booleans ... stay elements
+    for a in lists_upto([[1, 2], 3, [], "a", [4, [5]], None, True, frozenset([10, 11]), frozenset(), 2.5, [None], [frozenset([1])]], 3, cap, rnd):
         flat = []
         for x in a:
             flat.extend(x) if isinstance(x, list) else flat.append(x)
-        R.expect("bounded:flatten", f"List->flatten({lit(a)})", lambda r: same(r, flat), "one level flattened")
+        want = R.run(lit(flat))
+        R.expect("bounded:flatten", f"List->flatten({lit(a)})", lambda r: want[0] == "ok" and same(r, want[1]), f"one level flattened: {lit(flat)}")
     R.expect("bounded:sum", "sum([])", lambda r: r == 0 and type(r) is int, "empty sum 0")
     R.expect("bounded:prod", "List->prod([])", lambda r: r == 1 and type(r) is int, "empty product 1")
     # ---- numeric folds and order statistics, invariant under permutation
